@@ -264,7 +264,7 @@ class Gen:
                 if any(w % r == 0 for r in (2, 3, 4)):
                     out.append('repeat')
             if w == 1:
-                out += ['bvcomp', 'bvcomp']
+                out += ['bvcomp', 'bvcomp', 'ite_bvcomp']
             if self.fp_sort:
                 out.append('fp_to_bv')
             return out
@@ -318,6 +318,17 @@ class Gen:
         if not formals:
             return T(name, sort, op='defconst')
         args = [self.term(s, d) for _, s in formals]
+        if self.p.get('formals_like_globals') and len(formals) >= 2 and self.draw(st.booleans()):
+            # actuals that mention names equal to *other* formal parameters
+            for j, (_, sj) in enumerate(formals):
+                others = [n for k, (n, sk) in enumerate(formals) if k != j and sk == sj and n in self.s.consts]
+                if others and self.draw(st.booleans()):
+                    v = T(self.pick(others), sj, op='var')
+                    wrap = {'Int': lambda x: app('+', [x, T('1', INT, op='const')], INT),
+                            'Bool': lambda x: app('not', [x], BOOL),
+                            'BV': lambda x: app('bvnot', [x], sj)}.get(sj[0])
+                    args[j] = wrap(v) if wrap and self.draw(st.booleans()) else v
+                    self.s.features.add('actual-mentions-formal-name')
         return T([name] + [a.plain for a in args], sort, [((i + 1, ), a) for i, a in enumerate(args)], 'defapp')
 
     def p_selector(self, sort, d):
@@ -566,6 +577,13 @@ class Gen:
         w = self.pick(self.p['widths'])
         return app('bvcomp', [self.term(('BV', w), d), self.term(('BV', w), d)], ('BV', 1))
 
+    def p_ite_bvcomp(self, sort, d):
+        w = self.pick(self.p['widths'])
+        one = self.pick(['#b1', ['_', 'bv1', '1']])
+        zero = self.pick(['#b0', ['_', 'bv0', '1']])
+        eq = app('=', [self.term(('BV', w), d), self.term(('BV', w), d)], BOOL)
+        return app('ite', [eq, T(one, ('BV', 1), op='const'), T(zero, ('BV', 1), op='const')], ('BV', 1))
+
     def p_fp_to_bv(self, sort, d):
         return self.idx_app(self.pick(['fp.to_ubv', 'fp.to_sbv']), [sort[1]], [self.term(RM, d), self.term(self.fp_sort, d)], sort)
 
@@ -647,6 +665,8 @@ class Gen:
             if i != e or self.integer(0, 3) == 0:
                 self.arr_sort = ('Array', i, e)
                 sorts.append(self.arr_sort)
+        if p.get('formals_like_globals'):
+            sorts += [INT, INT, BOOL, BOOL]
         for so in sorts:
             name = self.name_for_const()
             s.consts[name] = so
@@ -666,6 +686,17 @@ class Gen:
             name = self.fresh('g')
             nform = self.integer(0, 2)
             formals = []
+            multi = {}
+            for n_, so_ in s.consts.items():
+                if so_[0] in ('Int', 'Bool', 'BV'):
+                    multi.setdefault(so_, []).append(n_)
+            multi = {k: v for k, v in multi.items() if len(v) >= 2}
+            if p.get('formals_like_globals') and multi and self.draw(st.booleans()):
+                # two formals named like two globals of one sort
+                so_ = self.pick(sorted(multi))
+                a_, b_ = multi[so_][0], multi[so_][1]
+                formals = [(a_, so_), (b_, so_)]
+                nform = 0
             for _ in range(nform):
                 fs = self.pick([INT, BOOL, ('BV', self.pick(p['widths']))])
                 if p.get('formals_like_globals') and self.draw(st.booleans()):
